@@ -4,7 +4,7 @@
 
 use drivers::*;
 use serde::{Deserialize, Serialize};
-use simple_sds::ops::{BitVec, Select};
+use simple_sds::ops::{BitVec, PredSucc, Rank, Select};
 use simple_sds::rl_vector::{RLBuilder, RLVector};
 use simple_sds::sparse_vector::{SparseBuilder, SparseVector};
 use std::collections::HashSet;
@@ -25,6 +25,8 @@ enum SAct {
     TrySet(usize),
     Set(usize),
     Extend(Vec<usize>),
+    /// `extend` with an iterator that does not know its length (lower size hint 0).
+    ExtendLazy(Vec<usize>),
 }
 
 #[derive(Clone, Debug)]
@@ -53,6 +55,41 @@ fn s_new(p: &SParams) -> Result<SparseBuilder, String> {
     }
 }
 
+/// "Builds what was accepted": the converted vector answers every present-value query like the sorted
+/// list of accepted positions (all indexes of small universes; the accepted positions +-1 otherwise).
+fn sv_problem(sv: &SparseVector, universe: usize, accepted: &[usize]) -> Option<String> {
+    let got: Vec<usize> = sv.one_iter().map(|(_, p)| p).collect();
+    if got != accepted || sv.len() != universe || sv.count_ones() != accepted.len() {
+        return Some(format!("converted vector has positions {:?} (len {}, count_ones {}), accepted were {:?} (universe {})", got, sv.len(), sv.count_ones(), accepted, universe));
+    }
+    let mut idx: Vec<usize> = if universe <= 80 { (0..=universe + 1).collect() } else { accepted.iter().flat_map(|&v| [v.saturating_sub(1), v, v.saturating_add(1)]).chain([0, universe - 1, universe]).collect() };
+    idx.sort_unstable();
+    idx.dedup();
+    for &i in &idx {
+        let rank = accepted.iter().filter(|&&v| v < i).count();
+        if sv.rank(i) != rank {
+            return Some(format!("converted vector: rank({}) = {}, expected {} (accepted {:?})", i, sv.rank(i), rank, accepted));
+        }
+        if i < universe && sv.get(i) != accepted.contains(&i) {
+            return Some(format!("converted vector: get({}) = {}, accepted {:?}", i, sv.get(i), accepted));
+        }
+        let succ = accepted.iter().copied().enumerate().find(|&(_, v)| v >= i);
+        if sv.successor(i).next() != succ {
+            return Some(format!("converted vector: successor({}) = {:?}, expected {:?}", i, sv.successor(i).next(), succ));
+        }
+        let pred = accepted.iter().copied().enumerate().filter(|&(_, v)| v <= i).last();
+        if sv.predecessor(i).next() != pred {
+            return Some(format!("converted vector: predecessor({}) = {:?}, expected {:?}", i, sv.predecessor(i).next(), pred));
+        }
+    }
+    for r in 0..=accepted.len() {
+        if sv.select(r) != accepted.get(r).copied() {
+            return Some(format!("converted vector: select({}) = {:?}, expected {:?}", r, sv.select(r), accepted.get(r)));
+        }
+    }
+    None
+}
+
 fn s_observe(b: &SparseBuilder, r: &SRef) -> Option<String> {
     let want = (r.accepted.len(), r.next(), r.accepted.len() == r.p.capacity, r.accepted.is_empty(), r.p.capacity, r.p.universe, r.p.multiset);
     let got = (b.len(), b.next_index(), b.is_full(), b.is_empty(), b.capacity(), b.universe(), b.is_multiset());
@@ -67,9 +104,8 @@ fn s_observe(b: &SparseBuilder, r: &SRef) -> Option<String> {
             if !full {
                 return Some("try_from succeeded on a builder that is not full".to_string());
             }
-            let got: Vec<usize> = sv.one_iter().map(|(_, p)| p).collect();
-            if got != r.accepted || sv.len() != r.p.universe || sv.count_ones() != r.accepted.len() {
-                return Some(format!("converted vector has positions {:?} (len {}), accepted were {:?} (universe {})", got, sv.len(), r.accepted, r.p.universe));
+            if let Some(msg) = sv_problem(&sv, r.p.universe, &r.accepted) {
+                return Some(msg);
             }
         }
         Err(_) => {
@@ -96,9 +132,8 @@ fn s_observe(b: &SparseBuilder, r: &SRef) -> Option<String> {
             if ok {
                 match SparseVector::try_from(c) {
                     Ok(sv) => {
-                        let got: Vec<usize> = sv.one_iter().map(|(_, p)| p).collect();
-                        if got != all || sv.len() != r.p.universe {
-                            return Some(format!("completed vector has positions {:?}, expected {:?}", got, all));
+                        if let Some(msg) = sv_problem(&sv, r.p.universe, &all) {
+                            return Some(format!("completed builder: {}", msg));
                         }
                     }
                     Err(e) => return Some(format!("completed builder does not convert: {}", e)),
@@ -135,6 +170,10 @@ fn s_actions(r: &SRef) -> Vec<SAct> {
         a.push(SAct::Extend(vec![n - 1, n]));
     }
     a.push(SAct::Extend(vec![u]));
+    a.push(SAct::ExtendLazy(vec![n]));
+    a.push(SAct::ExtendLazy(vec![n, n.saturating_add(1)]));
+    a.push(SAct::ExtendLazy(vec![n, n.saturating_add(1), n.saturating_add(2)]));
+    a.push(SAct::ExtendLazy(vec![n, u]));
     a
 }
 
@@ -164,8 +203,8 @@ fn s_apply(b: &mut SparseBuilder, r: &mut SRef, act: &SAct) -> Option<String> {
                 r.accepted.push(*i);
             }
         }
-        SAct::Extend(list) => {
-            // Only lists that are valid as a whole or whose first element is invalid (see DESIGN.md).
+        SAct::Extend(list) | SAct::ExtendLazy(list) => {
+            let lazy = matches!(act, SAct::ExtendLazy(_));
             let mut rr = r.clone();
             let mut all_ok = true;
             for &i in list {
@@ -176,16 +215,23 @@ fn s_apply(b: &mut SparseBuilder, r: &mut SRef, act: &SAct) -> Option<String> {
                     break;
                 }
             }
-            let first_bad = !list.is_empty() && !r.admissible(list[0]);
-            if !all_ok && !first_bad {
-                return None; // partially valid list: what is accepted before the panic is not specified; not explored
-            }
-            let got = guard(|| b.extend(list.iter().copied()));
+            let before = r.accepted.len();
+            let valid_prefix = rr.accepted.len() - before;
+            let got = if lazy { guard(|| b.extend(list.iter().copied().filter(|_| true))) } else { guard(|| b.extend(list.iter().copied())) };
             if got.is_ok() != all_ok {
                 return Some(format!("extend({:?}) {}, expected {}", list, if got.is_ok() { "returned" } else { "panicked" }, if all_ok { "acceptance" } else { "the documented panic" }));
             }
             if all_ok {
                 *r = rr;
+            } else {
+                // The call panicked at the first invalid element. How many of the valid elements before it
+                // were accepted is not specified, but it must be a prefix of them, and the builder must be
+                // exactly the builder that accepted that prefix (checked by `s_observe`).
+                let k = b.len().wrapping_sub(before);
+                if k > valid_prefix {
+                    return Some(format!("extend({:?}) panicked and left len() = {}, but the builder held {} values before and only {} of the new ones were valid", list, b.len(), before, valid_prefix));
+                }
+                r.accepted.extend_from_slice(&list[..k]);
             }
         }
     }
@@ -197,6 +243,7 @@ fn s_name(a: &SAct) -> &'static str {
         SAct::TrySet(_) => "try_set",
         SAct::Set(_) => "set",
         SAct::Extend(_) => "extend",
+        SAct::ExtendLazy(_) => "extend(lazy)",
     }
 }
 
